@@ -8,6 +8,7 @@ stringify(parse(t)) is the canonical text.
 """
 import json
 import random
+import re
 
 from vf import diff
 from vf.common import h
@@ -80,7 +81,30 @@ VALUE_SRC = [
     "true && {x: true, y: false}", "[1.5, 2.25, -3.125e-7, 1e300]", "({'__proto__': 1}).constructor === Object", "String('x')",
 ]
 CYCLES = ["var o = {}; o.self = o; o", "var a = []; a.push(a); a", "var o = {a: {b: {}}}; o.a.b.c = o; o", "var a = [1, {x: null}]; a[1].x = a; a", "var o = {}; var p = {o: o}; o.p = p; [o, p]",
-          "var shared = {v: 1}; [shared, shared, {s: shared}]"]
+          "var shared = {v: 1}; [shared, shared, {s: shared}]",
+          # shared but acyclic (a DAG is not a cycle): arrays and objects reachable twice, diamonds, sharing below a sibling
+          "var a = [1, 2]; [a, a]", "var a = [1, 2]; ({x: a, y: a})", "var a = []; [a, [a], {k: a}, a]", "var o = {}; var a = [o, o]; [a, a, o]",
+          "var leaf = [0]; var l = {p: leaf}, r = {p: leaf}; ({l: l, r: r, both: [l, r]})", "var a = [1]; var b = [a, a]; var c = [b, b]; [c, c]",
+          "var a = [1]; var o = {a: a}; o.b = o.a; o.c = [o.a, {d: o.a}]; o", "var e = {}; var a = [e]; a.push(a[0]); a.push([a[0]]); a",
+          "var a = [1, 2]; var cyc = {a: a, b: a}; cyc.self = cyc; cyc", "var a = [1]; a.push([a]); [a]"]
+
+
+def dag_value(rng):
+    """Statements building a value in which arrays/objects are shared (reachable along several paths), sometimes with one back
+    edge (a genuine cycle): stringify must serialise every acyclic value and reject exactly the cyclic ones."""
+    n = rng.randint(2, 6)
+    lines = []
+    for i in range(n):
+        lines.append("var n%d = %s;" % (i, rng.choice(["[]", "{}", "[%d]" % i, "{v: %d}" % i])))
+    for i in range(1, n):
+        for _ in range(rng.randint(1, 3)):
+            tgt = rng.randrange(i)          # edges go from later to earlier nodes only: acyclic by construction
+            lines.append("if (Array.isArray(n%d)) { n%d.push(n%d); } else { n%d['e' + Object.keys(n%d).length] = n%d; }" % (i, i, tgt, i, i, tgt))
+    if rng.random() < 0.25:
+        a, b2 = sorted(rng.sample(range(n), 2))
+        lines.append("if (Array.isArray(n%d)) { n%d.push(n%d); } else { n%d.back = n%d; }" % (a, a, b2, a, b2))     # a back edge: may close a cycle
+    lines.append("return [n%d, n%d];" % (n - 1, rng.randrange(n)))
+    return " ".join(lines)
 
 
 def main(ctx):
@@ -119,6 +143,9 @@ def main(ctx):
     # stringify of parsed random values (value-level), extra arguments ignored/unsupported are probed separately
     for t in texts[: (1500 if ctx.quick else 8000)]:
         progs.append(("stringify-value", "(function () { try { return JSON.stringify(JSON.parse(%s)); } catch (e) { return ['threw', e && e.name]; } })()" % json.dumps(t)))
+    for i in range(300 if ctx.quick else 6000):
+        r = fixed if i % 2 == 0 else rng
+        progs.append(("shared-structure", SPROBE % dag_value(r)))
     progs += [("args", "JSON.stringify({a: [1, {b: 2}]}, null, 2)"), ("args", "JSON.stringify({a: 1, b: 2}, ['a'])"), ("args", "JSON.stringify({a: 1}, function (k, v) { return typeof v === 'number' ? v + 1 : v; })"),
               ("args", "JSON.parse('{\"a\": 1}', function (k, v) { return typeof v === 'number' ? v * 2 : v; }).a"), ("args", "JSON.stringify('x', null, '--')"), ("args", "JSON.stringify([1], null, 20).length"),
               ("args", "JSON.stringify()"), ("args", "(function () { try { return JSON.parse(); } catch (e) { return e.name; } })()"), ("args", "JSON.parse(' 1 ')"), ("args", "JSON.parse(1)"),
@@ -138,6 +165,9 @@ def main(ctx):
         if n is None:
             continue
         ok = "ret" in e and "ret" in n and e["ret"] == n["ret"]
+        if not ok and "ret" in e and "ret" in n and INTKEY.search(src):
+            # integer-like keys: the engine keeps insertion order by design (see gen_text); judge such texts up to key order
+            ok = unordered(e["ret"]) == unordered(n["ret"])
         if ok:
             try:
                 tag = e["ret"][2][0][1]
@@ -177,6 +207,21 @@ def main(ctx):
     ctx.sample(near[11])
     ctx.sample(VALUE_SRC[19])
     ctx.assumptions += ["node v20 JSON is the reference"]
+
+
+INTKEY = re.compile(r'\\"(?:0|[1-9][0-9]*)\\"(?:\s|\\[ntr])*:')     # in the program text the JSON text is a string literal
+
+
+def unordered(v):
+    """Typed encoding with object entries sorted and canonical JSON texts dropped (they spell the key order)."""
+    if isinstance(v, list) and v:
+        if v[0] == "o":
+            return ["o", sorted((k, json.dumps(unordered(x))) for k, x in v[2])]
+        if v[0] == "a":
+            return ["a", [unordered(x) for x in v[2]]]
+        if v[0] == "s" and v[1][:1] in "{[":
+            return ["s", "<json text>"]
+    return v
 
 
 def why(e, n):
